@@ -453,6 +453,8 @@ class BinnedTrees(Iterable[AngularTree]):
             new._patch = patch
             new.binning = binning
 
+            # invalidate existing trees first, never mix them with a new binning
+            new.binning_file.unlink(missing_ok=True)
             with new.trees_file.open(mode="wb") as f:
                 trees = build_trees(patch, binning, leafsize=leafsize)
                 pickle.dump(trees, f)
